@@ -80,12 +80,15 @@ structure SMState where
   allow : Option Bool
   env   : Env
 
+/-- The regenerated guard of `_add_to_environment`: may a name already present be replaced, the flag being `flag`? -/
+def guardOf (i : CtorInputs) (flag : Bool) : Bool := evalAllow { i with allowArg := flag } Gen.EnvCtor.addGuard
+
 /-- Run a flag-reading installation.  With the flag unassigned the control flow is that of `allow = false`; the collision
 surfaces as an `AttributeError` instead of the `RuntimeError`. -/
-def withFlag {α : Type} (allow : Option Bool) (f : Bool → Except Err α) : Except SMErr α :=
+def withFlag {α : Type} (i : CtorInputs) (allow : Option Bool) (f : Bool → Except Err α) : Except SMErr α :=
   match allow with
   | some a =>
-    match f a with
+    match f (guardOf i a) with
     | .ok x => .ok x
     | .error e => .error (.env e)
   | none =>
@@ -99,8 +102,8 @@ def runStep (cfg : SMCfg) (i : CtorInputs) (s : SMState) : Step → Except SMErr
   | .setAllow e => .ok { s with allow := some (evalAllow i e) }
   | .userGlobals reservedCheck checked =>
     let reserved := if reservedCheck then cfg.reservedNs ++ cfg.reservedNames else []
-    match (if checked then withFlag s.allow fun a => addGlobals reserved a s.env.globals i.ug
-           else withFlag s.allow fun _ => addGlobalsBeforeFix reserved s.env.globals i.ug) with
+    match (if checked then withFlag i s.allow fun a => addGlobals reserved a s.env.globals i.ug
+           else withFlag i s.allow fun _ => addGlobalsBeforeFix reserved s.env.globals i.ug) with
     | .ok g => .ok { s with env := { s.env with globals := g } }
     | .error e => .error e
   | .reservedNamespaces =>
@@ -110,34 +113,34 @@ def runStep (cfg : SMCfg) (i : CtorInputs) (s : SMState) : Step → Except SMErr
     let g := if overwrite then setAll s.env.globals cfg.langGlobals else setDefaultAll s.env.globals cfg.langGlobals
     .ok { s with env := { s.env with globals := g } }
   | .langSupport =>
-    match withFlag s.allow fun a => addAll a s.env.filters cfg.langFilters with
+    match withFlag i s.allow fun a => addAll a s.env.filters cfg.langFilters with
     | .error e => .error e
     | .ok f =>
-      match withFlag s.allow fun a => addAll a s.env.tests cfg.langTests with
+      match withFlag i s.allow fun a => addAll a s.env.tests cfg.langTests with
       | .error e => .error e
       | .ok t => .ok { s with env := { s.env with filters := f, tests := t } }
   | .nunavutNamespace => .ok s
   | .ownMethods =>
-    match withFlag s.allow fun a => addAll a s.env.filters cfg.ownFilters with
+    match withFlag i s.allow fun a => addAll a s.env.filters cfg.ownFilters with
     | .error e => .error e
     | .ok f =>
-      match withFlag s.allow fun a => addAll a s.env.tests cfg.ownTests with
+      match withFlag i s.allow fun a => addAll a s.env.tests cfg.ownTests with
       | .error e => .error e
       | .ok t => .ok { s with env := { s.env with filters := f, tests := t } }
   | .userFilters =>
-    match withFlag s.allow fun a => addAll a s.env.filters (conv i.uf) with
+    match withFlag i s.allow fun a => addAll a s.env.filters (conv i.uf) with
     | .error e => .error e
     | .ok f => .ok { s with env := { s.env with filters := f } }
   | .userTests =>
-    match withFlag s.allow fun a => addAll a s.env.tests (conv i.ut) with
+    match withFlag i s.allow fun a => addAll a s.env.tests (conv i.ut) with
     | .error e => .error e
     | .ok t => .ok { s with env := { s.env with tests := t } }
   | .instanceTests =>
-    match withFlag s.allow fun a => addPost a s.env cfg.instanceTests with
+    match withFlag i s.allow fun a => addPost a s.env cfg.instanceTests with
     | .error e => .error e
     | .ok e => .ok { s with env := e }
   | .generatorMethods =>
-    match withFlag s.allow fun a => addPost a s.env cfg.generatorMethods with
+    match withFlag i s.allow fun a => addPost a s.env cfg.generatorMethods with
     | .error e => .error e
     | .ok e => .ok { s with env := e }
 
